@@ -268,6 +268,7 @@ func genC10(r *simrt.Rand, tier string, idx uint64) *Plan {
 	}
 	p.Faults = []Fault{f} // informational (AtOp==0 and kind!=cut@connect: nothing is armed from here)
 	p.Faults[0].AtOp = -1
+	p.Params = map[string]int{"settle": 1} // a second of quiet before the world is torn down
 	return p
 }
 
@@ -284,6 +285,11 @@ func checkC10(w *World, run *simrt.Run) {
 			continue
 		}
 		affected := wholeConn || s.Idx == f.Stream
+		if !wholeConn && s.Idx == f.Stream && s.Closed && s.HandlerStart != 0 && (s.HandlerEnd == 0 || s.HandlerEnd > w.TeardownSeq) {
+			// the connection lives on: it is the close of the stream itself that must release the handler,
+			// not the teardown of the connection a second or more later
+			w.Violate("C10.handler-stuck", "handler-not-released-by-stream-close:"+w.acceptMode(), fmt.Sprintf("stream %d: Close returned (%q) but the server handler was still running when the harness tore the connection down (accept mode %s)", s.Idx, s.CloseErr, w.acceptMode()))
+		}
 		if affected {
 			if s.ClientBlocked {
 				w.Violate("C10.client-reader-stuck", "client-read-stuck:"+f.Kind, fmt.Sprintf("stream %d: client ReadMessage still blocked at end of run after %s", s.Idx, f.Kind))
